@@ -149,6 +149,20 @@ func init() {
 		p.cfg = append(p.cfg[:3], append([]string{"- ops/*.go"}, p.cfg[3:]...)...)
 	})
 	reg("ops-keyword-name", "ops", func(p *project) { p.files["ops/z.graphql"] = "query func { kind }\n" })
+	// package_bindings naming the package that holds the generated code (genqlient warns about
+	// the circularity and goes on): the last good output is one of the files of that package
+	selfBind := func(p *project) {
+		p.files["types.go"] = "package scratch\n\ntype Stamp string\n"
+		p.cfg = append(p.cfg, "package_bindings:", "- package: example.com/scratch")
+	}
+	reg("ops-unknown-field-selfbound", "ops", func(p *project) {
+		selfBind(p)
+		p.files["ops/z.graphql"] = "query Bad2 { users { nope } }\n"
+	})
+	reg("gen-bad-directive-selfbound", "codegen", func(p *project) {
+		selfBind(p)
+		p.files["ops/z.graphql"] = "# @genqlient(nonsense: true)\nquery BD2 { kind }\n"
+	})
 	// ---- code-generation errors
 	reg("gen-unbound-scalar", "codegen", func(p *project) { p.cfg = p.cfg[:4]; p.files["ops/z.graphql"] = "query W { when }\n" })
 	reg("gen-typename-conflict", "codegen", func(p *project) {
